@@ -311,13 +311,12 @@ def _build_object(case, cold=True):
     if obj == "frame":
         if case.get("second_geometry"):
             # a second geometry column (the first vertex of every element, as points)
-            from spatialpandas.geometry import PointArray
             pts = []
             for v in models.array_values(arr):
                 flat = [c for c in models.coords(models.kind_of(arr), v)] if v is not None else []
                 pts.append([float(flat[0][0]), float(flat[0][1])] if flat else None)
             gdf = gdf.copy()
-            gdf["g2"] = PointArray(pts)
+            gdf["g2"] = gen.build_array("point", pts)
         return gdf
     return e1.make_ddf(gdf, case["parts"])
 
